@@ -129,6 +129,17 @@ func recvUDec() quickfix.FIXUDecimal {
 	return v
 }
 
+// readThenOverwrite: Read from a private copy of the text and overwrite that copy before the value is looked at: a value
+// read from a buffer must not change when the buffer is used again (FIXBytes is the one type that is a view by design).
+func readThenOverwrite(v interface{ Read([]byte) error }, b []byte) error {
+	src := append([]byte(nil), b...)
+	err := v.Read(src)
+	for i := range src {
+		src[i] = 'X'
+	}
+	return err
+}
+
 func runTypesOnce(in Sx) Sx {
 	l := in.(List)
 	switch AtomSym(l[0]) {
@@ -136,7 +147,7 @@ func runTypesOnce(in Sx) Sx {
 		b := AtomBytes(l[1])
 		return Guard(func() Sx {
 			v := recvInt()
-			if err := v.Read(b); err != nil {
+			if err := readThenOverwrite(&v, b); err != nil {
 				return ErrV()
 			}
 			return L(Sym("ok"), Int(int(v)), Bytes(v.Write()))
@@ -146,7 +157,7 @@ func runTypesOnce(in Sx) Sx {
 		return Guard(func() Sx {
 			w := quickfix.FIXInt(n).Write()
 			v := recvInt()
-			if err := v.Read(w); err != nil {
+			if err := readThenOverwrite(&v, w); err != nil {
 				return L(Bytes(w), ErrV())
 			}
 			return L(Bytes(w), OkV(Int(int(v))))
@@ -155,7 +166,7 @@ func runTypesOnce(in Sx) Sx {
 		b := AtomBytes(l[1])
 		return Guard(func() Sx {
 			v := recvBool()
-			if err := v.Read(b); err != nil {
+			if err := readThenOverwrite(&v, b); err != nil {
 				return ErrV()
 			}
 			return L(Sym("ok"), Bool(bool(v)), Bytes(v.Write()))
@@ -164,7 +175,7 @@ func runTypesOnce(in Sx) Sx {
 		return Guard(func() Sx {
 			w := quickfix.FIXBoolean(AtomBool(l[1])).Write()
 			v := recvBool()
-			if err := v.Read(w); err != nil {
+			if err := readThenOverwrite(&v, w); err != nil {
 				return L(Bytes(w), ErrV())
 			}
 			return L(Bytes(w), OkV(Bool(bool(v))))
@@ -173,7 +184,7 @@ func runTypesOnce(in Sx) Sx {
 		b := AtomBytes(l[1])
 		return Guard(func() Sx {
 			f := recvTS()
-			if err := f.Read(b); err != nil {
+			if err := readThenOverwrite(&f, b); err != nil {
 				return ErrV()
 			}
 			return tsObs(f, Bytes(f.Write()))
@@ -188,7 +199,7 @@ func runTypesOnce(in Sx) Sx {
 			f := quickfix.FIXUTCTimestamp{Time: tm, Precision: quickfix.TimestampPrecision(p)}
 			w := f.Write()
 			r := recvTS()
-			if err := r.Read(w); err != nil {
+			if err := readThenOverwrite(&r, w); err != nil {
 				return L(Bytes(w), ErrV())
 			}
 			return L(Bytes(w), tsObs(r))
@@ -197,7 +208,7 @@ func runTypesOnce(in Sx) Sx {
 		b := AtomBytes(l[1])
 		return Guard(func() Sx {
 			v := recvFloat()
-			if err := v.Read(b); err != nil {
+			if err := readThenOverwrite(&v, b); err != nil {
 				return ErrV()
 			}
 			return Sym("ok")
@@ -209,7 +220,7 @@ func runTypesOnce(in Sx) Sx {
 			w := quickfix.FIXFloat(v).Write()
 			r := recvFloat()
 			same := false
-			if err := r.Read(w); err == nil {
+			if err := readThenOverwrite(&r, w); err == nil {
 				same = math.Float64bits(float64(r)) == math.Float64bits(v)
 			}
 			return L(Bytes(w), Bool(same))
@@ -218,7 +229,7 @@ func runTypesOnce(in Sx) Sx {
 		b := AtomBytes(l[1])
 		return Guard(func() Sx {
 			v := recvFloat()
-			if err := v.Read(b); err != nil {
+			if err := readThenOverwrite(&v, b); err != nil {
 				return ErrV()
 			}
 			return Bool(bytes.Equal(v.Write(), b))
@@ -227,7 +238,7 @@ func runTypesOnce(in Sx) Sx {
 		b := AtomBytes(l[1])
 		return Guard(func() Sx {
 			v := recvString()
-			if err := v.Read(b); err != nil {
+			if err := readThenOverwrite(&v, b); err != nil {
 				return ErrV()
 			}
 			return L(Sym("ok"), Str(string(v)), Bytes(v.Write()))
@@ -245,7 +256,7 @@ func runTypesOnce(in Sx) Sx {
 		b, scale := AtomBytes(l[1]), AtomInt(l[2])
 		return Guard(func() Sx {
 			v := recvDec()
-			if err := v.Read(b); err != nil {
+			if err := readThenOverwrite(&v, b); err != nil {
 				return ErrV()
 			}
 			if e := v.Decimal.Exponent(); e > 1000 || e < -1000 {
@@ -262,14 +273,14 @@ func runTypesOnce(in Sx) Sx {
 		b, scale := AtomBytes(l[1]), AtomInt(l[2])
 		return Guard(func() Sx {
 			v := recvUDec()
-			if err := v.Read(b); err != nil {
+			if err := readThenOverwrite(&v, b); err != nil {
 				return ErrV()
 			}
 			v.Scale = uint8(scale)
 			w := v.Write()
 			r := recvUDec()
 			var rr Sx = ErrV()
-			if err := r.Read(w); err == nil {
+			if err := readThenOverwrite(&r, w); err == nil {
 				rr = Str(r.Decimal.String())
 			}
 			return L(Sym("ok"), Str(v.Decimal.String()), Int(v.Decimal.Prec()), Bytes(w), rr)
